@@ -344,6 +344,9 @@ void gen(uint64_t seed, int tier, sim::Plan &p) {
     p.cfg["alloc_calloc"] = r.chance(0.75);
     p.cfg["alloc_yield"] = r.chance(0.5);
     p.cfg["alloc_reuse_permille"] = r.pick(std::vector<int64_t>{300, 700, 1000});
+    // the tracer only time-stamps allocations and ignores a failing clock: environments without CLOCK_BOOTTIME (every read fails)
+    // or with occasional failures are legal for it
+    if (r.chance(0.15)) p.cfg["p_clockfail_boot"] = r.pick(std::vector<int64_t>{1000000, 1000000, 50000, 300000});
     p.cfg["alloc_move_permille"] = r.pick(std::vector<int64_t>{0, 500, 1000});
     static const std::vector<int64_t> sizes = {1, 8, 16, 16, 16, 32, 32, 64, 100, 1000, 5000};
     int maxops = tier ? 100 : 40;
@@ -408,7 +411,7 @@ std::string op_text(const sim::Op &op) {
 extern const Harness H_C17 = {
     "C17", "memory tracer's byte and allocation counts always equal what is live", gen, run, op_text,
     "Plans: tracer level NONE/BYTES/STACKS with 0-200 frames over a simulated allocator (immediate cross-thread address reuse, realloc moves "
-    "or stays, optional vtable entries, preemption inside allocator calls); 1-4 threads x 4-100 operations of acquire / calloc / realloc (grow, "
+    "or stays, optional vtable entries, preemption inside allocator calls), in 15% of the runs on a system whose high-resolution clock read fails; 1-4 threads x 4-100 operations of acquire / calloc / realloc (grow, "
     "shrink, same size, to 0, from NULL) / release, blocks handed to other threads, concurrent bytes/count queries and dumps, barrier "
     "checkpoints where bytes and count must equal the reference live set exactly and a dump must list exactly the live allocations. Distinct = "
     "sync-order fingerprint combined with plan, level and allocator behaviour; non-trivial = tracing on, at least 4 operations and "
